@@ -70,3 +70,54 @@ void go(Rng& rng)
 #endif
     }
 }
+
+#if defined(SEC_C04F)
+#include "vhf.h"
+// scaled_integer <-> floating point
+template<class R1, int E1, int RX, class F>
+void gof(Rng& rng)
+{
+    using A = scaled_integer<R1, power<E1, RX>>;
+    std::vector<R1> lv;
+    if constexpr (sizeof(R1) <= 2)
+        lv = all_vals<R1>();
+    else
+        lv = vals<R1>(rng, 200 * scale_from_env(), 1);
+    for (R1 a : lv) {
+        A x = _impl::from_rep<A>(a);
+        printf("C04 tof %d %s %d %s ", RX, tn<R1>().c_str(), E1, vhf::FN<F>::name);
+        prv(a);
+        fputs(" => ", stdout);
+        {
+            int vh_rc = sigsetjmp(vh::jb, 1);
+            if (vh_rc == 0) {
+                vh::armed = 1;
+                F z = static_cast<F>(x);
+                vh::armed = 0;
+                vhf::prf(z);
+            } else {
+                vh::armed = 0;
+                vh::print_fail(vh_rc);
+            }
+            putchar('\n');
+        }
+    }
+    // floats around the representable range of A: integers and fractions scaled by radix^E1
+    std::vector<F> fv;
+    F unit = std::pow(F(RX), F(E1));
+    for (R1 a : vals<R1>(rng, 40 * scale_from_env(), sizeof(R1) > 4 ? 7 : 3)) {
+        for (F o : {F(0), F(0.25), F(0.5), F(0.75), F(1)}) {
+            vhf::push_f(fv, F((F(a) + o) * unit));
+            vhf::push_f(fv, F((F(a) - o) * unit));
+        }
+    }
+    for (F f : vhf::fvals<F>(rng, 60 * scale_from_env(), false))
+        if (std::isfinite(f)) vhf::push_f(fv, f);
+    for (F f : fv) {
+        printf("C04 fromf %d %s %d %s ", RX, tn<R1>().c_str(), E1, vhf::FN<F>::name);
+        vhf::prf(f);
+        fputs(" => ", stdout);
+        VH_RUN(A{f}, print_sc)
+    }
+}
+#endif
